@@ -53,4 +53,14 @@ def containsB (needle : Bytes) : Bytes → Bool
   | [] => needle.isEmpty
   | b :: l => isPrefixB needle (b :: l) || containsB needle l
 
+/-- big-endian, `k` bytes (Rust `uN::to_be_bytes`, `k = N/8`). -/
+def beBytes : Nat → Nat → Bytes
+  | 0, _ => []
+  | k+1, n => beBytes k (n / 256) ++ [UInt8.ofNat (n % 256)]
+
+def fromBe (bs : Bytes) : Nat := bs.foldl (fun a b => a * 256 + b.toNat) 0
+
+/-- `u32::to_be_bytes` -/
+def be32 (n : UInt32) : Bytes := beBytes 4 n.toNat
+
 end IsoMdl
